@@ -10,6 +10,8 @@ import (
 	"os"
 	"path/filepath"
 	"sort"
+	"strconv"
+	"strings"
 	"sync"
 	"sync/atomic"
 
@@ -129,20 +131,63 @@ func (m *Manager) openLatestSegment() error {
 	if err != nil {
 		return err
 	}
-	var ids []int
+	var ids []uint32
 	for _, f := range files {
-		var id int
-		_, err := fmt.Sscanf(filepath.Base(f), "%05d.wal", &id)
-		if err == nil {
+		if id, ok := segmentIDFromPath(f); ok {
 			ids = append(ids, id)
 		}
 	}
-	sort.Ints(ids)
 	if len(ids) == 0 {
 		return m.switchSegmentLocked(1, true)
 	}
-	last := ids[len(ids)-1]
-	return m.switchSegmentLocked(uint32(last), false)
+	last := ids[0]
+	for _, id := range ids[1:] {
+		if id > last {
+			last = id
+		}
+	}
+	return m.switchSegmentLocked(last, false)
+}
+
+// segmentIDFromPath parses the segment id out of a "<id>.wal" file name. Ids are printed
+// with at least five digits but may have more, so the digits are parsed as a number (a
+// "%05d" scan pattern stops after five digits and rejects longer names).
+func segmentIDFromPath(path string) (uint32, bool) {
+	name := filepath.Base(path)
+	if !strings.HasSuffix(name, ".wal") {
+		return 0, false
+	}
+	digits := strings.TrimSuffix(name, ".wal")
+	if digits == "" {
+		return 0, false
+	}
+	for i := 0; i < len(digits); i++ {
+		if digits[i] < '0' || digits[i] > '9' {
+			return 0, false
+		}
+	}
+	id, err := strconv.ParseUint(digits, 10, 32)
+	if err != nil {
+		return 0, false
+	}
+	return uint32(id), true
+}
+
+// sortSegmentPaths orders segment files by their numeric id (names that are not segment
+// files keep their lexical order after the segments).
+func sortSegmentPaths(files []string) {
+	sort.SliceStable(files, func(i, j int) bool {
+		a, aok := segmentIDFromPath(files[i])
+		b, bok := segmentIDFromPath(files[j])
+		switch {
+		case aok && bok:
+			return a < b
+		case aok != bok:
+			return aok
+		default:
+			return files[i] < files[j]
+		}
+	})
 }
 
 func (m *Manager) rebuildRecordCounts() error {
@@ -346,7 +391,7 @@ func (m *Manager) ListSegments() ([]string, error) {
 	if err != nil {
 		return nil, err
 	}
-	sort.Strings(files)
+	sortSegmentPaths(files)
 	return files, nil
 }
 
@@ -358,13 +403,13 @@ func (m *Manager) Replay(fn func(info EntryInfo, payload []byte) error) error {
 	if err != nil {
 		return err
 	}
-	sort.Strings(files)
+	sortSegmentPaths(files)
 	for _, path := range files {
-		var id int
-		if _, err := fmt.Sscanf(filepath.Base(path), "%05d.wal", &id); err != nil {
+		id, ok := segmentIDFromPath(path)
+		if !ok {
 			continue
 		}
-		if err := m.replayFile(uint32(id), path, fn); err != nil {
+		if err := m.replayFile(id, path, fn); err != nil {
 			return err
 		}
 	}
@@ -474,7 +519,7 @@ func VerifyDir(dir string, fs vfs.FS) error {
 	if err != nil {
 		return err
 	}
-	sort.Strings(files)
+	sortSegmentPaths(files)
 	for _, path := range files {
 		if err := verifySegment(fs, path); err != nil {
 			return err
